@@ -13,20 +13,20 @@ def toSpec (s : State) : SpecAt :=
   | .awaitSupported => .options
   | .awaitStartup => .startup s.compress
   | .awaitAuth hist _ _ => .auth s.compress hist
-  | .conn (.use ks) rest => .use s.compress s.curKs ks rest
-  | .conn .reg rest => .reg s.compress s.curKs rest
-  | .conn (.prep cons vals) rest => .prep s.compress s.curKs cons vals rest
-  | .conn .exe rest => .exe s.compress s.curKs rest
+  | .conn (.use ks) rest => .use s.compress s.curKs ks s.cache rest
+  | .conn .reg rest => .reg s.compress s.curKs s.cache rest
+  | .conn (.prep stmt cons vals) rest => .prep s.compress s.curKs s.cache stmt cons vals rest
+  | .conn (.exe stmt cons vals) rest => .exe s.compress s.curKs s.cache stmt cons vals rest
   | .stopped w => .stop w
 
 /-- what the loop variables of authenticateHandshake hold: `challenger != nil` and `req` are those of
     the latest reply of the authenticator chain; no keyspace before the plan starts -/
 def Inv (au : Authn) (s : State) : Prop :=
   match s.phase with
-  | .awaitSupported => s.curKs = []
-  | .awaitStartup => s.curKs = []
+  | .awaitSupported => s.curKs = [] ∧ s.cache = []
+  | .awaitStartup => s.curKs = [] ∧ s.cache = []
   | .awaitAuth hist hn req =>
-    s.curKs = [] ∧ hn = nextOf (au.challenge hist) ∧ req = GReq.authResponse (tokenOf (au.challenge hist))
+    s.curKs = [] ∧ s.cache = [] ∧ hn = nextOf (au.challenge hist) ∧ req = GReq.authResponse (tokenOf (au.challenge hist))
   | _ => True
 
 theorem regEvents_eq (t s c : Bool) : regEvents t s c = specEvents t s c := by
@@ -68,9 +68,50 @@ theorem ask_execute (now : Int) (cfg : Config) (curKs id : Bytes) (cons : Nat) (
 /-- the pair the specification lists for a request the model writes -/
 def tag (now : Int) (z : Bool) (r : Option GReq) : Option (Req × Bool) := r.map (fun g => (ask now g, z))
 
-theorem advance_sim (cfg : Config) (now : Int) (z : Bool) (succ : List (Option Bytes)) (curKs : Bytes) (rest : List Action) :
-    toSpec ⟨(advance cfg curKs rest).1, curKs, z, succ⟩ = (specNext cfg z curKs rest).1 ∧
-    tag now z (advance cfg curKs rest).2 = (specNext cfg z curKs rest).2 := by
+/-- Conn.executeQuery with the cache `cache` does what the specification says for the known ids `cache` -/
+theorem execQuery_sim (cfg : Config) (now : Int) (z : Bool) (succ : List (Option Bytes)) (curKs : Bytes) (cache : Known)
+    (stmt : Bytes) (cons : Nat) (vals : List (Option Bytes)) (rest : List Action) :
+    toSpec ⟨(execQuery cfg curKs cache stmt cons vals rest).1, curKs, z, succ, cache⟩ =
+      (specExec cfg z curKs cache stmt cons vals rest).1 ∧
+    tag now z (execQuery cfg curKs cache stmt cons vals rest).2 = (specExec cfg z curKs cache stmt cons vals rest).2 := by
+  unfold execQuery specExec
+  cases h : List.lookup (curKs, stmt) cache with
+  | none => simp [toSpec, tag, ask_prepare]
+  | some info =>
+    obtain ⟨id, n⟩ := info
+    by_cases hn : n = vals.length
+    · have hn' : ¬ vals.length ≠ n := by omega
+      simp [hn, toSpec, tag, ask_execute]
+    · have hn' : vals.length ≠ n := by omega
+      simp [hn, hn', toSpec, tag]
+
+theorem execQuery_noawait (cfg : Config) (curKs : Bytes) (cache : Known) (stmt : Bytes) (cons : Nat)
+    (vals : List (Option Bytes)) (rest : List Action) :
+    (∃ p r, (execQuery cfg curKs cache stmt cons vals rest).1 = .conn p r) ∨
+    (∃ w, (execQuery cfg curKs cache stmt cons vals rest).1 = .stopped w) := by
+  unfold execQuery
+  cases List.lookup (curKs, stmt) cache with
+  | none => left; exact ⟨_, _, rfl⟩
+  | some info =>
+    by_cases hn : vals.length ≠ info.2
+    · right; simp only; rw [if_pos hn]; exact ⟨_, rfl⟩
+    · left; simp only; rw [if_neg hn]; exact ⟨_, _, rfl⟩
+
+theorem evict_eq (cache : Known) (key : Key) (uid : Bytes) : evictPreparedID cache key uid = specForget cache key uid := by
+  unfold evictPreparedID specForget
+  cases List.lookup key cache with
+  | none => rfl
+  | some info =>
+    obtain ⟨id, n⟩ := info
+    by_cases h : id = uid
+    · subst h; simp
+    · have h' : ¬ uid = id := fun e => h e.symm
+      simp [h, h']
+
+theorem advance_sim (cfg : Config) (now : Int) (z : Bool) (succ : List (Option Bytes)) (curKs : Bytes) (cache : Known)
+    (rest : List Action) :
+    toSpec ⟨(advance cfg curKs cache rest).1, curKs, z, succ, cache⟩ = (specNext cfg z curKs cache rest).1 ∧
+    tag now z (advance cfg curKs cache rest).2 = (specNext cfg z curKs cache rest).2 := by
   induction rest with
   | nil => simp [advance, specNext, toSpec, tag]
   | cons a rest ih =>
@@ -83,10 +124,12 @@ theorem advance_sim (cfg : Config) (now : Int) (z : Bool) (succ : List (Option B
       · have h' : ¬ (specEvents t s c).length = 0 := by
           intro hl; exact h (List.eq_nil_of_length_eq_zero hl)
         simp [h, h', toSpec, tag, ask]
-    | exec stmt cons vals => simp [advance, specNext, toSpec, tag, ask_prepare]
+    | exec stmt cons vals =>
+      simp only [advance, specNext]
+      exact execQuery_sim cfg now z succ curKs cache stmt cons vals rest
 
-theorem advance_noawait (cfg : Config) (curKs : Bytes) (rest : List Action) :
-    (∃ p r, (advance cfg curKs rest).1 = .conn p r) ∨ (∃ w, (advance cfg curKs rest).1 = .stopped w) := by
+theorem advance_noawait (cfg : Config) (curKs : Bytes) (cache : Known) (rest : List Action) :
+    (∃ p r, (advance cfg curKs cache rest).1 = .conn p r) ∨ (∃ w, (advance cfg curKs cache rest).1 = .stopped w) := by
   induction rest with
   | nil => right; exact ⟨_, rfl⟩
   | cons a rest ih =>
@@ -97,17 +140,17 @@ theorem advance_noawait (cfg : Config) (curKs : Bytes) (rest : List Action) :
       by_cases h : (regEvents t s c).length = 0
       · simp only [h, if_true]; exact ih
       · simp only [h, if_false]; left; exact ⟨_, _, rfl⟩
-    | exec stmt cons vals => left; exact ⟨_, _, rfl⟩
+    | exec stmt cons vals => exact execQuery_noawait cfg curKs cache stmt cons vals rest
 
 theorem enter_sim (cfg : Config) (au : Authn) (now : Int) (s : State) (curKs : Bytes) (rest : List Action) :
-    toSpec (enter cfg s curKs rest).1 = (specNext cfg s.compress curKs rest).1 ∧
+    toSpec (enter cfg s curKs rest).1 = (specNext cfg s.compress curKs s.cache rest).1 ∧
     Inv au (enter cfg s curKs rest).1 ∧
     (enter cfg s curKs rest).1.compress = s.compress ∧
     (enter cfg s curKs rest).1.successArgs = s.successArgs ∧
-    tag now s.compress (enter cfg s curKs rest).2 = (specNext cfg s.compress curKs rest).2 := by
-  have h := advance_sim cfg now s.compress s.successArgs curKs rest
+    tag now s.compress (enter cfg s curKs rest).2 = (specNext cfg s.compress curKs s.cache rest).2 := by
+  have h := advance_sim cfg now s.compress s.successArgs curKs s.cache rest
   refine ⟨h.1, ?_, rfl, rfl, h.2⟩
-  rcases advance_noawait cfg curKs rest with ⟨p, r, h⟩ | ⟨w, h⟩ <;> simp [enter, Inv, h]
+  rcases advance_noawait cfg curKs s.cache rest with ⟨p, r, h⟩ | ⟨w, h⟩ <;> simp [enter, Inv, h]
 
 /-- **one answer**: the model's state stays in step with the specification, writes the request the
     specification lists (or none), and calls Success() exactly when and with what the specification says -/
@@ -116,7 +159,7 @@ theorem step_sim (cfg : Config) (au : Authn) (now : Int) (s : State) (a : PeerAn
     Inv au (step cfg au s a).1 ∧
     tag now (flagOf s (step cfg au s a).1) (step cfg au s a).2 = (specStep cfg au (toSpec s) a).2.1 ∧
     (step cfg au s a).1.successArgs = s.successArgs ++ (specStep cfg au (toSpec s) a).2.2.toList := by
-  obtain ⟨phase, curKs, compress, succ⟩ := s
+  obtain ⟨phase, curKs, compress, succ, cache⟩ := s
   cases phase with
   | awaitSupported =>
     simp only [Inv] at hi
@@ -134,10 +177,11 @@ theorem step_sim (cfg : Config) (au : Authn) (now : Int) (s : State) (a : PeerAn
         | some n => simp only; split <;> simp_all
   | awaitStartup =>
     simp only [Inv] at hi
-    subst hi
+    obtain ⟨hk, hc⟩ := hi
+    subst hk hc
     cases a <;> simp [step, toSpec, specStep, failHs, Inv, tag, flagOf]
     case ready =>
-      have h := enter_sim cfg au now ⟨.awaitStartup, [], compress, succ⟩ [] cfg.plan
+      have h := enter_sim cfg au now ⟨.awaitStartup, [], compress, succ, []⟩ [] cfg.plan
       simp only [tag] at h
       refine ⟨h.1, h.2.1, ?_, h.2.2.2.1⟩
       rw [h.2.2.1]; exact h.2.2.2.2
@@ -146,17 +190,17 @@ theorem step_sim (cfg : Config) (au : Authn) (now : Int) (s : State) (a : PeerAn
       cases hc : au.challenge [some cls] <;> simp [failHs, toSpec, Inv, tokenOf, nextOf, hc, ask]
   | awaitAuth hist hn req =>
     simp only [Inv] at hi
-    obtain ⟨hk, hn', hreq⟩ := hi
-    subst hk hn' hreq
+    obtain ⟨hk, hc, hn', hreq⟩ := hi
+    subst hk hc hn' hreq
     cases a <;> simp [step, toSpec, specStep, failHs, Inv, tag, flagOf]
     case authSuccess t =>
       cases hN : nextOf (au.challenge hist) <;> simp
-      · have h := enter_sim cfg au now ⟨.awaitAuth hist false (GReq.authResponse (tokenOf (au.challenge hist))), [], compress, succ⟩ [] cfg.plan
+      · have h := enter_sim cfg au now ⟨.awaitAuth hist false (GReq.authResponse (tokenOf (au.challenge hist))), [], compress, succ, []⟩ [] cfg.plan
         simp only [tag] at h
         refine ⟨h.1, h.2.1, ?_, h.2.2.2.1⟩
         rw [h.2.2.1]; exact h.2.2.2.2
       · cases hS : au.success hist t <;> simp [failHs, toSpec, Inv]
-        have h := enter_sim cfg au now ⟨.awaitAuth hist true (GReq.authResponse (tokenOf (au.challenge hist))), [], compress, succ ++ [t]⟩ [] cfg.plan
+        have h := enter_sim cfg au now ⟨.awaitAuth hist true (GReq.authResponse (tokenOf (au.challenge hist))), [], compress, succ ++ [t], []⟩ [] cfg.plan
         simp only [tag] at h
         refine ⟨h.1, h.2.1, ?_, h.2.2.2.1⟩
         rw [h.2.2.1]; exact h.2.2.2.2
@@ -168,33 +212,40 @@ theorem step_sim (cfg : Config) (au : Authn) (now : Int) (s : State) (a : PeerAn
     | use ks =>
       cases a <;> simp [step, toSpec, specStep, failAct, Inv, tag, flagOf]
       case setKeyspace =>
-        have h := enter_sim cfg au now ⟨.conn (.use ks) rest, curKs, compress, succ⟩ ks rest
+        have h := enter_sim cfg au now ⟨.conn (.use ks) rest, curKs, compress, succ, cache⟩ ks rest
         simp only [tag] at h
         refine ⟨h.1, h.2.1, ?_, h.2.2.2.1⟩
         rw [h.2.2.1]; exact h.2.2.2.2
     | reg =>
       cases a <;> simp [step, toSpec, specStep, failAct, Inv, tag, flagOf]
       case ready =>
-        have h := enter_sim cfg au now ⟨.conn .reg rest, curKs, compress, succ⟩ curKs rest
+        have h := enter_sim cfg au now ⟨.conn .reg rest, curKs, compress, succ, cache⟩ curKs rest
         simp only [tag] at h
         refine ⟨h.1, h.2.1, ?_, h.2.2.2.1⟩
         rw [h.2.2.1]; exact h.2.2.2.2
-    | prep cons vals =>
+    | prep stmt cons vals =>
       cases a <;> simp [step, toSpec, specStep, failAct, Inv, tag, flagOf]
       case prepared id n =>
         by_cases hn : n = vals.length <;> simp [hn, failAct, toSpec, Inv, ask_execute]
-    | exe =>
+    | exe stmt cons vals =>
       cases a <;> simp [step, toSpec, specStep, failAct, Inv, tag, flagOf]
       case void =>
-        have h := enter_sim cfg au now ⟨.conn .exe rest, curKs, compress, succ⟩ curKs rest
+        have h := enter_sim cfg au now ⟨.conn (.exe stmt cons vals) rest, curKs, compress, succ, cache⟩ curKs rest
         simp only [tag] at h
         refine ⟨h.1, h.2.1, ?_, h.2.2.2.1⟩
         rw [h.2.2.1]; exact h.2.2.2.2
       case setKeyspace =>
-        have h := enter_sim cfg au now ⟨.conn .exe rest, curKs, compress, succ⟩ curKs rest
+        have h := enter_sim cfg au now ⟨.conn (.exe stmt cons vals) rest, curKs, compress, succ, cache⟩ curKs rest
         simp only [tag] at h
         refine ⟨h.1, h.2.1, ?_, h.2.2.2.1⟩
         rw [h.2.2.1]; exact h.2.2.2.2
+      case unprepared uid =>
+        have h := execQuery_sim cfg now compress succ curKs (evictPreparedID cache (curKs, stmt) uid) stmt cons vals rest
+        simp only [tag, toSpec] at h
+        rw [evict_eq] at h ⊢
+        refine ⟨h.1, ?_, h.2⟩
+        rcases execQuery_noawait cfg curKs (specForget cache (curKs, stmt) uid) stmt cons vals rest with ⟨p, r, h'⟩ | ⟨w, h'⟩ <;>
+          rw [h'] <;> trivial
   | stopped w =>
     cases a <;> simp [step, toSpec, specStep, Inv, tag, flagOf]
 
@@ -224,7 +275,7 @@ theorem run_sim (cfg : Config) (au : Authn) (now : Int) (answers : List PeerAnsw
     · simp only [final, specFinal, i2, h1]
     · simp only [final, specSuccess, i3, h4, h1, List.append_assoc]
 
-theorem init_inv (cfg : Config) (au : Authn) : Inv au (Handshake.init cfg) := rfl
+theorem init_inv (cfg : Config) (au : Authn) : Inv au (Handshake.init cfg) := ⟨rfl, rfl⟩
 
 /-! ## bytes -/
 
